@@ -120,7 +120,7 @@ class C04(Check):
     thorough = {"runs": 20000, "wall": 900, "item_timeout": 180}
 
     def gen(self, rng, tier, i):
-        cfg = calsim.gen_config(rng, rl_prob=0.3, extreme_prob=0.4)
+        cfg = calsim.gen_config(rng, rl_prob=0.3, extreme_prob=0.4, feature=calsim.SAMPLER_KINDS[i % 9])
         if rng.random() < 0.15:
             return {"engine": "sqlite", "config": cfg, "env": {"folder": False}, "ops": [["calibrate", rng.randint(1, 4)]],
                     "sqlite_prestate": rng.random() < 0.5, "sim_seed": rng.randrange(2 ** 31)}
